@@ -220,28 +220,29 @@ Section Rebase.
 
   Lemma ObjFr_close E o m m' x x' :
     ObjFr E (Some o) m m' o x x' -> o_box x <> BNotYet -> o_vst x <> VDropping -> o_vst x <> VUninit -> o_vst x' <> VDropping ->
-    (o_box x = BAlloc -> ~ protected E m o x) -> ObjFr E None m m' o x x'.
+    (o_box x = BAlloc -> ~ protected E m o x) -> (inD m o = true -> o_vst x' = VDropped) -> ObjFr E None m m' o x x'.
   Proof.
-    intros [F1 F2 F3 F4 F5 F6 F7 F8 F8' Fu Fn F9 F10] Hb Hv Hnu Hv' Hp. split; auto; try congruence; try tauto.
+    intros [F1 F2 F3 F4 F5 F6 F7 F8 F8' Fu Fn Fd F9 F10] Hb Hv Hnu Hv' Hp Hdd. split; auto; try congruence; try tauto.
   Qed.
 
   Lemma Cur_close_ex b n E0 o m0 E W m :
     Cur K b n E0 (Some o) m0 E W m ->
     (forall x x', get m0 o = Some x -> get m o = Some x' ->
        o_box x <> BNotYet /\ o_vst x <> VDropping /\ o_vst x <> VUninit /\ o_vst x' <> VDropping /\
-       (o_box x = BAlloc -> ~ protected E0 m0 o x)) ->
+       (o_box x = BAlloc -> ~ protected E0 m0 o x) /\ (inD m0 o = true -> o_vst x' = VDropped)) ->
     Cur K b n E0 None m0 E W m.
   Proof.
     intros [C1 C2 C3 C4] Ho. split; auto.
-    destruct C3 as [F1 Fw F2 F3 F4]. split; auto.
+    destruct C3 as [F1 Fw F2 Fc F3 F4]. split; auto.
     intros o' x Hx. destruct (F3 o' x Hx) as (x' & Hx' & OF). exists x'. split; [exact Hx'|].
     destruct (decide (o' = o)) as [->|Hne].
-    - destruct (Ho x x' Hx Hx') as (H1 & H2 & H2' & H3 & H4). apply ObjFr_close; auto.
-    - destruct OF as [G1 G2 G3 G4 G5 G6 G7 G8 G8' Gu Gn G9 G10]. split; auto.
+    - destruct (Ho x x' Hx Hx') as (H1 & H2 & H2' & H3 & H4 & H5). apply ObjFr_close; auto.
+    - destruct OF as [G1 G2 G3 G4 G5 G6 G7 G8 G8' Gu Gn Gd G9 G10]. split; auto.
       + intros Hb Hv _. apply G7; auto. congruence.
       + intros Hv _. apply G8; auto. congruence.
       + intros _ Hv. apply G8'; auto. congruence.
       + intros _ Hv Hb. apply Gu; auto. congruence.
+      + intros Hi _ Hv. apply Gd; auto. congruence.
       + intros _ Hb Hp. apply G10; auto. congruence.
   Qed.
 
